@@ -51,8 +51,11 @@ def check(case):
     # the same byte string behind the other buffer types Python has for bytes (memoryview.tobytes() == data for each of them,
     # the signed-char view yields items -128..127 for the same bytes)
     if data:
+        pad = b'\xa5' * 3
         for name, d in (('memoryview', memoryview(data)), ('memoryview-signed-char', memoryview(data).cast('b')),
-                        ('memoryview-of-bytearray', memoryview(bytearray(data)))):
+                        ('memoryview-of-bytearray', memoryview(bytearray(data))),
+                        ('memoryview-slice-of-a-larger-buffer', memoryview(pad + data + pad)[3:3 + len(data)]),
+                        ('memoryview-slice-of-a-larger-bytearray', memoryview(bytearray(pad + data + pad))[3:-3])):
             ok16, g16 = _try(crc16, d)
             ok32, g32 = _try(crc32c, d)
             if (ok16 and g16 != r16.to_bytes(2, 'big')) or (ok32 and g32 != r32.to_bytes(4, 'little')):
@@ -123,9 +126,10 @@ def check_long(case):
 
 
 def enum_long(tier):
-    sizes = [4095, 4096, 4097, 8191, 8192, 8193, 16384, 32767, 32768, 32769, 65535, 65536, 65537]
+    sizes = [4095, 4096, 4097, 8191, 8192, 8193, 16384, 32767, 32768, 32769, 65535, 65536, 65537, 131072, 262143, 262144, 262145,
+             524288, 1048575, 1048576, 1048577]
     if tier != 'quick':
-        sizes += [131071, 131072, 131073, 262144 + 1, 1048575, 1048576, 1048577]
+        sizes += [131071, 131073, 3 * 262144, 2097152, 2097153, 4194304]
     for i, n in enumerate(sizes):
         yield {'n': n, 'seed': i, 'as': 'bytearray' if i % 3 == 0 else 'bytes'}
         yield {'n': n, 'fill': (0x00, 0xFF, 0xA5)[i % 3]}
